@@ -484,3 +484,23 @@ package types
 //@   modifies bigv
 //@   ensures [quotient] result == go_div(old(bigv[tokens.i]), 1000000)
 //@   ensures [bigv-kept] forall p int {bigv[p]} :: isold(p) ==> bigv[p] == old(bigv[p])
+
+// ---- C16: the transaction index is what replay protection reads ---------------------------------
+// Every result of the block that is not an ante-handler level rejection is stored under the
+// hash of its raw bytes, and the batch is flushed - whatever else the block contains (the same
+// bytes again, failed messages).
+//@ func keyForSigner
+//@   trusted string formatting of the secondary index key
+//@   pure_fn
+//@ func keyForRecipient
+//@   trusted string formatting of the secondary index key
+//@   pure_fn
+//@ func keyForHeight
+//@   trusted string formatting of the secondary index key
+//@   pure_fn
+//@ func (*TransactionIndexer).AddBatch
+//@   props C16
+//@   modifies bset, bWriteN, bWritten
+//@   ensures [every-executed-tx-indexed-by-hash] result == nil ==> bWriteN == old(bWriteN) + 1 && (forall j int :: 0 <= j && j < len(b.Ops) && !(b.Ops[j].Result.Codespace == "auth" && b.Ops[j].Result.Code < 10) ==> bset[bWritten][txHashOf(bytes(b.Ops[j].Tx))])
+//@   loop 0 invariant 0 - 1 <= rangeindex && rangeindex < len(b.Ops) && storeBatch != nil && bWriteN == old(bWriteN)
+//@   loop 0 invariant forall j int :: 0 <= j && j <= rangeindex && !(b.Ops[j].Result.Codespace == "auth" && b.Ops[j].Result.Code < 10) ==> bset[storeBatch][txHashOf(bytes(b.Ops[j].Tx))]
